@@ -16,6 +16,21 @@ CLAIMED = {
    note="Trusted: Coq kernel + vm_compute; SpecSchema.v and Registry.v (hand transcriptions from memory of KMIP 1.4, no spec offline); translator (cross-checked against reflect's view of the struct tags every run).",
    technique="Coq proof: vm_compute enumeration of regenerated schema vs spec table",
    design="3/C19"),
+ "C02": dict(
+   text="Machine-checked proof: for EVERY value and type environment the encoder model equals ser . to_tree (theorem C02_enc_canonical, mutual induction over the value), where ser is an independently written TTLV serialiser (3-byte tag, 1-byte type, 4-byte unpadded length, zero padding to 8, structure length = total size of children; lemmas C02_padded, C02_structure_length for all trees) and to_tree the declarative presence rules (declaration order, optional present iff non-zero, required always). History independence: the model is a pure function and the regenerated fact gen_pkg_var_writes = [] shows no package state is written. Tie: the implementation and the extracted model encode the same generated values (all 58 types, well-formed values, boundary primitives) byte for byte on every run; a history/parallel suite re-encodes values after random histories and in 16 goroutines.",
+   note="Trusted: Coq kernel; Codec.v hand-written model of encode.go/encode_core.go/fields.go (tied by correspondence, counts in evidence); reflect/bytes.Buffer modelled; extraction (ExtrOcamlBasic, ExtrOcamlString) + driver glue; tag numbers enter through the regenerated tagMap, itself tied to the registry by C18. Concurrency beyond 'no shared writable state' is observed, not modelled.",
+   technique="Coq proof (mutual induction): encoder = ser . to_tree; extracted-model vs implementation byte comparison",
+   design="3/C02"),
+ "C03": dict(
+   text="Machine-checked proof: the decoder model terminates for EVERY schema, state and byte string (theorem C03_total / C03_total_all: the fuel of the slice loop - the only non-structural recursion - always suffices because every decoded element consumes at least 5 bytes, C03_progress; structure nesting is structural recursion on the schema tree), so it returns a value or an error. Panics, hangs, over-reads and dependence on delivery are properties of the runtime objects (reflect, bufio, LimitReader) and are decided on the implementation: every input (valid encodings, 14 kinds of mutation, truncation at every offset, random bytes, non-canonical encodings) is decoded from an unbuffered source with a consumption counter, and re-delivered buffered, through a 16-byte bufio, one byte at a time, in random chunks with empty reads and data+EOF, and with an injected I/O error.",
+   note="Trusted: Coq kernel; Codec.v model of decode.go/decode_core.go tied by correspondence (same inputs through the extracted model; outcome, value and remaining bytes compared by C04's projection). The chunked-delivery theorem of DESIGN.md (Readers.v) is not yet proved: delivery independence rests on the harness. reflect/bufio/io modelled.",
+   technique="Coq proof of termination/totality of the decoder model + differential run with delivery variants",
+   design="3/C03"),
+ "C13": dict(
+   text="Machine-checked decision table: for every type environment, nil, typed-nil, foreign scalars, maps, slices, pointer-to-pointer and structures without a descriptor are errors of the encoder model at top level and at every interface-typed position (C13_top_level_rejects, C13_dynamic_rejects), and a failed Encode leaves the destination untouched (C13_failed_writes_nothing, for all values). The model is a total function, so 'never panics' is decided by the correspondence: every struct type x {well-formed, arbitrary, unsupported dynamic values at every interface position}, 18 top-level shapes and 12 Decode targets run on the implementation with recover and a counting writer; a panic or bytes written on error is the violation.",
+   note="Trusted: Coq kernel; Codec.v model tied by correspondence; reflect's panic behaviour is observed, not modelled.",
+   technique="Coq decision-table lemmas + exhaustive shape/position run of the implementation under recover",
+   design="3/C13"),
 }
 
 m = {
